@@ -1114,3 +1114,98 @@ def rule_OP10(ctx, rep):
     if n < 4:
         raise AnalysisError(f'OP10: only {n} binary/in-place shift pairs judged (expected >= 4)')
     return n
+
+
+# ---------------------------------------------------------------------------------- ID1
+def _id1_zero_test(e):
+    """`<name> == 0` -> name"""
+    if isinstance(e, ast.Compare) and len(e.ops) == 1 and isinstance(e.ops[0], ast.Eq) and isinstance(e.left, ast.Name) \
+            and isinstance(e.comparators[0], ast.Constant) and e.comparators[0].value == 0:
+        return e.left.id
+    return None
+
+
+def _id1_free(e, hot):
+    """does `e` mention a name of `hot` (or a zero test) outside every divisor / reciprocal?"""
+    if isinstance(e, ast.BinOp) and isinstance(e.op, (ast.Div, ast.FloorDiv)):
+        return _id1_free(e.left, hot)                      # the divisor is a barrier
+    if isinstance(e, ast.Call) and attr_tail(e.func) in ('reciprocal', '_reciprocal', 'inverse', 'invert'):
+        return False
+    if isinstance(e, ast.Name):
+        return e.id in hot
+    if _id1_zero_test(e) is not None:
+        return True
+    return any(_id1_free(c, hot) for c in ast.iter_child_nodes(e))
+
+
+def rule_ID1(ctx, rep):
+    """oblivious counterpart of the identity case of `normalize`: where the plain curve class returns `cls.identity` under a zero test of
+    a coordinate (`if z == 0: return cls.identity`), the secure `normalize` branch for that class computes the same zero test and every
+    part of the coordinate list it returns depends on that test *other than through a divisor*.  The divisor `1 / (z + [z == 0])` only
+    keeps the inversion defined: for z = 0 it is 1 and leaves (x, y) as they are -- (0 : y : 0) with whatever y the arithmetic produced
+    -- so equality with the canonical identity (0, 1, 0), which compares normalised coordinates, fails for a computed identity."""
+    model = ctx.model
+    fn = model.func('secgroups::SecureEllipticCurvePoint.normalize')
+    pm = parents(fn.node)
+    n = 0
+    for br in iter_nodes(fn.node):
+        if not (isinstance(br, ast.If) and isinstance(br.test, ast.Call) and isinstance(br.test.func, ast.Name) and br.test.func.id == 'issubclass'
+                and len(br.test.args) == 2):
+            continue
+        pname = attr_tail(br.test.args[1])
+        pcls = model.classes.get(f'fingroups::{pname}')
+        if pcls is None:
+            raise AnalysisError(f'ID1: plain class fingroups.{pname} named in SecureEllipticCurvePoint.normalize not found')
+        pnorm = next((m for m in pcls.body if isinstance(m, ast.FunctionDef) and m.name == 'normalize'), None)
+        if pnorm is None:
+            raise AnalysisError(f'ID1: fingroups.{pname}.normalize not found')
+        # the plain identity case: `if <coord> == 0: return cls.identity`
+        plain = [i for i in iter_nodes(pnorm) if isinstance(i, ast.If) and _id1_zero_test(i.test) is not None
+                 and any(isinstance(r, ast.Return) and r.value is not None and attr_tail(r.value) == 'identity' for r in i.body)]
+        if not plain:
+            continue            # no identity case split in the plain sibling: nothing to mirror
+        body = [s for b in br.body for s in iter_nodes(b)]
+        preds = {t.id for s in body if isinstance(s, ast.Assign) and _id1_zero_test(s.value) is not None for t in s.targets if isinstance(t, ast.Name)}
+        inline = any(_id1_zero_test(x) is not None for s in body for x in ast.walk(s))
+        rets = [s for s in body if isinstance(s, ast.Return) and s.value is not None]
+        if not rets:
+            raise AnalysisError(f'ID1: the {pname} branch of the secure normalize returns nothing')
+        if not (preds or inline):
+            n += 1
+            rep.bad('ID1', fn, rets[0], f'the plain {pname}.normalize returns the identity under `{norm(plain[0].test)}`; the secure branch has no zero test of a coordinate at all')
+            continue
+        hot = set(preds)
+        grew = True
+        while grew:              # names computed from the test other than through a divisor
+            grew = False
+            for s in body:
+                if isinstance(s, ast.Assign) and _id1_free(s.value, hot):
+                    for t in s.targets:
+                        for x in ast.walk(t):
+                            if isinstance(x, ast.Name) and isinstance(x.ctx, ast.Store) and x.id not in hot:
+                                hot.add(x.id)
+                                grew = True
+        for r in rets:
+            v = r.value
+            while isinstance(v, ast.Call) and len(v.args) >= 1 and not (isinstance(v.func, ast.Attribute) and v.func.attr in ('scalar_mul', 'if_else')):
+                v = v.args[0]    # cls(..), tuple(..), list(..) wrappers
+            parts = []
+            todo = [v]
+            while todo:
+                x = todo.pop()
+                if isinstance(x, ast.BinOp) and isinstance(x.op, ast.Add):
+                    todo += [x.left, x.right]
+                elif isinstance(x, (ast.List, ast.Tuple)):
+                    parts += x.elts
+                else:
+                    parts.append(x)
+            n += 1
+            cold = [p for p in parts if not _id1_free(p, hot)]
+            if cold:
+                rep.bad('ID1', fn, r, f'the part `{norm(cold[0])}` of the coordinates returned for {pname} depends on the zero test only through a divisor (or not at all): '
+                        f'for a computed identity (z = 0) it keeps whatever the arithmetic produced, while the plain {pname}.normalize returns cls.identity there')
+            else:
+                rep.ok('ID1', fn, r, f'every part of the returned coordinates is selected on the zero test that the plain {pname}.normalize branches on')
+    if n < 1:
+        raise AnalysisError('ID1: no branch of SecureEllipticCurvePoint.normalize mirrors an identity case of a plain normalize')
+    return n
